@@ -237,7 +237,16 @@ type below struct {
 
 var layers = []string{"bare", "cache", "view"}
 
+// extraLayer lets a second harness file (built only in the root module, where internal/vault/barrier is importable)
+// provide further layered stores for the same generator: layer "barrier" = the AES-GCM barrier over inmem.
+var extraLayer func(t *testing.T, layer string) (store, *below)
+
 func newStore(t *testing.T, layer string) (store, *below) {
+	if extraLayer != nil {
+		if st, bl := extraLayer(t, layer); st != nil {
+			return st, bl
+		}
+	}
 	logger := log.NewNullLogger()
 	raw, err := inmem.NewInmem(nil, logger)
 	if err != nil {
